@@ -221,7 +221,7 @@ Definition changes (s : core) (o : op) : list change :=
   | OPublish k v => pub_changes k v
   | OSPub c t v => match assoc_get id_eqb ((c : N), t) (spub_keys s) with Some k => pub_changes k v | None => [] end
   | OImport j => match dec_persisted j with
-                 | Some other => map imp_change (insertions (data s) other)
+                 | Some other => map imp_change (insertions (data s) (strip_sys s_SYS other))      (* $SYS is not imported (F29) *)
                  | None => []
                  end
   | _ => []
@@ -333,8 +333,9 @@ Proof.
     cbn [wanted flat_map ch_path ch_changed ch_key ch_val ch_deleted]. now rewrite app_nil_r.
   - (* import *)
     destruct (step_refines0 s (OImport j) HI I Himp Hnc) as (HI' & _). cbn [step] in HI'.
-    revert HI'. unfold do_import. destruct (dec_persisted j) as [other|] eqn:Ed; [|intros; apply Hsame; try reflexivity; lia].
-    destruct (Himp other Ed) as (Hwo & Hgo & Hro). set (s' := set_data s _ _).
+    revert HI'. unfold do_import. destruct (dec_persisted j) as [other0|] eqn:Ed; [|intros; apply Hsame; try reflexivity; lia].
+    cbv zeta. set (other := strip_sys s_SYS other0).
+    destruct (good_import_strip other0 (Himp other0 Ed)) as (Hwo & Hgo & Hro). fold other in Hwo, Hgo, Hro. set (s' := set_data s _ _).
     rewrite (notify_imported_exact s' (insertions (data s) other)).
     2:{ apply Forall_forall. intros [[q e] ch] Hin. cbn [fst]. unfold insertions in Hin.
         apply in_map_iff in Hin as ([q' e'] & [= -> -> _] & Hin). rewrite entries_collect in Hin.
@@ -680,8 +681,9 @@ Proof.
     match goal with |- context [match ?x with Some _ => _ | None => _ end] => destruct x as [key|] end; [|reflexivity].
     unfold do_publish. crush_op; cbn [snd o_events]; try reflexivity; now apply notify_absent.
   - destruct Hs as (Es & Hn). split; [|now apply Hkeep]. unfold do_import.
-    destruct (dec_persisted j) as [other|] eqn:Ed; [|reflexivity].
-    destruct (Himp other Ed) as (Hwo & Hgo & Hro). set (s' := set_data s _ _).
+    destruct (dec_persisted j) as [other0|] eqn:Ed; [|reflexivity].
+    cbv zeta. set (other := strip_sys s_SYS other0).
+    destruct (good_import_strip other0 (Himp other0 Ed)) as (Hwo & Hgo & Hro). fold other in Hwo, Hgo, Hro. set (s' := set_data s _ _).
     rewrite (notify_imported_exact s' (insertions (data s) other)).
     2:{ apply Forall_forall. intros [[q e] ch] Hin. cbn [fst]. unfold insertions in Hin.
         apply in_map_iff in Hin as ([q' e'] & [= -> -> _] & Hin). rewrite entries_collect in Hin.
